@@ -102,6 +102,53 @@ class _Raw(io.RawIOBase):
         raise io.UnsupportedOperation("fileno")
 
 
+class _HookedFile:
+    """A real file object whose first read is announced as a 'read' access (fault hooks fire between open and read)."""
+
+    def __init__(self, f, vk, path):
+        self.__dict__["_f"] = f
+        self.__dict__["_vk"] = vk
+        self.__dict__["_path"] = path
+        self.__dict__["_announced"] = False
+
+    def _announce(self):
+        if not self._announced:
+            self.__dict__["_announced"] = True
+            vk = self._vk
+            if vk is not None and CUR is vk:
+                vk.access("read", self._path)
+
+    def read(self, *a):
+        self._announce()
+        return self._f.read(*a)
+
+    def readline(self, *a):
+        self._announce()
+        return self._f.readline(*a)
+
+    def readlines(self, *a):
+        self._announce()
+        return self._f.readlines(*a)
+
+    def __iter__(self):
+        self._announce()
+        return iter(self._f)
+
+    def __next__(self):
+        self._announce()
+        return next(self._f)
+
+    def __enter__(self):
+        self._f.__enter__()
+        return self
+
+    def __exit__(self, *a):
+        return self._f.__exit__(*a)
+
+    def __getattr__(self, name):
+        return getattr(self._f, name)
+
+
 def _fspath(p):
     if isinstance(p, bytes):
         return os.fsdecode(p), True
@@ -132,6 +179,7 @@ class VK:
         self.on_access = None    # optional hook(vk, idx, kind, path)
         self.rdev = {}           # path -> st_rdev reported for a redirected path (fake device nodes)
         self.count_only = None   # optional predicate(kind, path): only those accesses get an index
+        self.hook_reads = False  # redirected (real) files announce their first read as a "read" access
 
     # -- wiring ---------------------------------------------------------------------------
     def mount(self, prefix, provider):
@@ -200,7 +248,8 @@ def _v_open(file, mode="r", buffering=-1, encoding=None, errors=None, newline=No
             if r is not None:
                 if r[0] == "r":
                     vk.access("open", p)
-                    return real_open(r[1], mode, buffering, encoding, errors, newline, closefd, opener)
+                    f = real_open(r[1], mode, buffering, encoding, errors, newline, closefd, opener)
+                    return _HookedFile(f, vk, p) if vk.hook_reads else f
                 vk.access("open", p)
                 if "w" in mode or "a" in mode or "+" in mode:
                     raise oserr(errno.EACCES, p)
